@@ -107,7 +107,8 @@ def run_lockstep(pid, tier, slices=None, write_evidence=True):
         shown = 0
         for f in r['findings']:
             v = {'property': pid, 'machine': r['zoo'], 'cfg': f['peers'][1], 'kind': f['kind'], 'msg': f['msg'], 'peers': f['peers'],
-                 'history': f['history'], 'raw': f['raw'], 'classes': f['classes'], 'lockstep': True, 'model_flags': []}
+                 'history': f['history'], 'raw': f['raw'], 'classes': f['classes'], 'lockstep': True, 'model_flags': [],
+                 'pre_pending': f.get('pre_pending', []), 'pre_config': f.get('pre_config', ()), 'post_configs': f.get('post_configs', [])}
             k = known.match(kf, v, z)
             if k is not None:
                 known_seen[k['id']] += 1
@@ -195,6 +196,15 @@ def _serial_of_step(hist, idx):
         if op.rstrip('B') in ('pe', 'eq'):
             s += 1
     return s
+
+
+def _relabel(label, smap):
+    """answer labels contain the driver's serial: g<gid>.<serial>.<k>, d<sid>.<serial>.<k>, p<K>.<owner>.<id>.<serial>.<k>"""
+    parts = label.split('.')
+    pos = 3 if label.startswith('p') else 1
+    if len(parts) > pos and parts[pos].lstrip('-').isdigit() and int(parts[pos]) in smap:
+        parts[pos] = str(smap[int(parts[pos])])
+    return '.'.join(parts)
 
 
 def _retag(raw, frm, to, smap):
@@ -342,23 +352,23 @@ def copy_job(job):
                                     out['stats']['continuations'] += 1
                                     h2 = hist + [(opn, op[1], lm)]
                                     # reference: the original rebuilt by replay, driven with the same operations
-                                    mine = (opsA if tgt == 'A' else opsB) + [(op[0], op[1], lm)]
-                                    sH = _serial_of_step(h2, len(h2) - 1)
-                                    ref_hist = list(P)
+                                    # The driver numbers the events of BOTH machines with one counter; in the reference run only
+                                    # this target's operations exist.  Map every serial of this target's operations (also of
+                                    # events enqueued earlier and dispatched now) to the serial it has in the reference run, in
+                                    # the traces and in the answer labels (which contain the serial).
+                                    nP = _serial_of_step(P, len(P) - 1) if P else 0
                                     smapH2R = {}
-                                    # serials of the earlier operations of this target, then this one
-                                    for j, (o_, e_, l_) in enumerate(mine):
-                                        ref_hist.append((o_, e_, l_))
-                                    sR = _serial_of_step(ref_hist, len(ref_hist) - 1)
-                                    if op[0] in ('pe', 'eq'):
-                                        smapH2R[sH] = sR
-                                    # answers are keyed by labels that contain the driver's serial
-                                    lmR = {}
-                                    for kk, v in lm.items():
-                                        parts = kk.split('.')
-                                        parts = [str(smapH2R.get(int(x), int(x))) if x.lstrip('-').isdigit() and i_ >= 1 and int(x) == sH and sH in smapH2R else x for i_, x in enumerate(parts)]
-                                        lmR['.'.join(parts)] = v
-                                    ref_hist[-1] = (op[0], op[1], lmR)
+                                    cnt = 0
+                                    ref_hist = list(P)
+                                    for i_ in range(len(base), len(h2)):
+                                        o_, e_, l_ = h2[i_]
+                                        if o_.endswith('B') != (tgt == 'B'):
+                                            continue
+                                        ob = o_[:-1] if o_.endswith('B') else o_
+                                        if ob in ('pe', 'eq'):
+                                            cnt += 1
+                                            smapH2R[_serial_of_step(h2, i_)] = nP + cnt
+                                        ref_hist.append((ob, e_, {_relabel(kk, smapH2R): v for kk, v in l_.items()}))
                                     rr = peer.run(ref_hist)
                                     got = _retag(r['raw'], 'b' if tgt == 'B' else 'a', 'a', smapH2R)
                                     exp = _retag(rr['raw'], 'a', 'a', {})
